@@ -243,6 +243,32 @@ impl<const LIFE: bool> DeadlineAccess for Probe<calloop::ping::PingSource, LIFE>
 impl<T, const LIFE: bool> DeadlineAccess for Probe<calloop::channel::Channel<T>, LIFE> {}
 impl<const LIFE: bool> DeadlineAccess for Probe<Composite, LIFE> {}
 impl<T, const LIFE: bool> DeadlineAccess for Probe<calloop::futures::Executor<T>, LIFE> {}
+impl<S: futures::Stream + Unpin, const LIFE: bool> DeadlineAccess for Probe<calloop::stream::StreamSource<S>, LIFE> {}
+
+/// A stream fed by the driver: items are pushed between (or during) dispatches.
+#[derive(Default)]
+pub struct StreamState {
+    pub queue: std::collections::VecDeque<i64>,
+    pub ended: bool,
+    pub waker: Option<std::task::Waker>,
+}
+
+pub struct ManualStream(pub Rc<RefCell<StreamState>>);
+
+impl futures::Stream for ManualStream {
+    type Item = i64;
+    fn poll_next(self: std::pin::Pin<&mut Self>, cx: &mut std::task::Context<'_>) -> std::task::Poll<Option<i64>> {
+        let mut st = self.0.borrow_mut();
+        if let Some(v) = st.queue.pop_front() {
+            std::task::Poll::Ready(Some(v))
+        } else if st.ended {
+            std::task::Poll::Ready(None)
+        } else {
+            st.waker = Some(cx.waker().clone());
+            std::task::Poll::Pending
+        }
+    }
+}
 
 /// File descriptor flavours a `Composite` child can sit on.
 #[derive(Debug, Clone)]
